@@ -221,6 +221,72 @@ func csSimArgs(fset *token.FileSet, fd *ast.FuncDecl) []string {
 	return out
 }
 
+// csPerInstance: the statement shape of a per-instance constructor,
+//
+//	x := <generated constructor>(input)
+//	d := antlr.NewATNDeserializer(nil)
+//	a := d.DeserializeFromUInt16(<serialized ATN>)          a fresh ATN for this instance
+//	f := make([]*antlr.DFA, len(a.DecisionToState))
+//	for i, ds := range a.DecisionToState { f[i] = antlr.NewDFA(ds, i) }
+//	x.Interpreter = antlr.New(Lexer|Parser)ATNSimulator(x, a, f, antlr.NewPredictionContextCache())
+//	return x
+//
+// with nothing else in the body. Anything else is "Unknown: <why>".
+func csPerInstance(fset *token.FileSet, fd *ast.FuncDecl) string {
+	define := func(st ast.Stmt) (string, *ast.CallExpr) {
+		as, ok := st.(*ast.AssignStmt)
+		if !ok || as.Tok != token.DEFINE || len(as.Lhs) != 1 || len(as.Rhs) != 1 {
+			return "", nil
+		}
+		id, ok := as.Lhs[0].(*ast.Ident)
+		c, ok2 := as.Rhs[0].(*ast.CallExpr)
+		if !ok || !ok2 {
+			return "", nil
+		}
+		return id.Name, c
+	}
+	b := fd.Body.List
+	if len(b) != 7 {
+		return fmt.Sprintf("Unknown: %d statements", len(b))
+	}
+	x, c0 := define(b[0])
+	if c0 == nil || !(csCallee(c0) == "NewSyslLexer" || csCallee(c0) == "NewSyslParser") {
+		return "Unknown: statement 1 is not the generated constructor"
+	}
+	d, c1 := define(b[1])
+	if c1 == nil || !irChainIs(c1.Fun, "antlr", "NewATNDeserializer") {
+		return "Unknown: statement 2 is not a new deserializer"
+	}
+	a, c2 := define(b[2])
+	if c2 == nil || !irChainIs(c2.Fun, d, "DeserializeFromUInt16") || len(c2.Args) != 1 {
+		return "Unknown: statement 3 does not deserialize an ATN with that deserializer"
+	}
+	f, c3 := define(b[3])
+	if c3 == nil || !isIdent(c3.Fun, "make") || len(c3.Args) != 2 || csSrc(fset, c3.Args[0]) != "[]*antlr.DFA" ||
+		csSrc(fset, c3.Args[1]) != "len("+a+".DecisionToState)" {
+		return "Unknown: statement 4 does not make a DFA slice for that ATN"
+	}
+	rs, ok := b[4].(*ast.RangeStmt)
+	if !ok || !irChainIs(rs.X, a, "DecisionToState") || rs.Key == nil || rs.Value == nil || len(rs.Body.List) != 1 ||
+		csSrc(fset, rs.Body.List[0]) != fmt.Sprintf("%s[%s] = antlr.NewDFA(%s, %s)", f, csSrc(fset, rs.Key), csSrc(fset, rs.Value), csSrc(fset, rs.Key)) {
+		return "Unknown: statement 5 does not fill the DFA slice from that ATN"
+	}
+	as, ok := b[5].(*ast.AssignStmt)
+	if !ok || as.Tok != token.ASSIGN || len(as.Lhs) != 1 || len(as.Rhs) != 1 || !irChainIs(as.Lhs[0], x, "Interpreter") {
+		return "Unknown: statement 6 does not assign the interpreter"
+	}
+	sim, ok := as.Rhs[0].(*ast.CallExpr)
+	if !ok || !(irChainIs(sim.Fun, "antlr", "NewLexerATNSimulator") || irChainIs(sim.Fun, "antlr", "NewParserATNSimulator")) || len(sim.Args) != 4 ||
+		!isIdent(sim.Args[0], x) || !isIdent(sim.Args[1], a) || !isIdent(sim.Args[2], f) || csSrc(fset, sim.Args[3]) != "antlr.NewPredictionContextCache()" {
+		return "Unknown: the simulator is not built from the instance, its own ATN, its own DFAs and a new cache"
+	}
+	ret, ok := b[6].(*ast.ReturnStmt)
+	if !ok || len(ret.Results) != 1 || !isIdent(ret.Results[0], x) {
+		return "Unknown: statement 7 does not return the instance"
+	}
+	return "per-instance:" + csSrc(fset, c2.Args[0])
+}
+
 // root identifier of an assignable expression (x, x[i], x.f, *x)
 func csRoot(e ast.Expr) string {
 	for {
@@ -357,7 +423,7 @@ func concShape(repo string) (string, error) {
 	}
 
 	// ---- simulator arguments of the four constructors
-	var simArgs []string
+	var simArgs, perInstance, ctorShapes []string
 	for _, c := range []struct{ file, fn string }{
 		{"pkg/grammar/threadsafe_lexer.go", "NewThreadSafeSyslLexer"}, {"pkg/grammar/threadsafe_parser.go", "NewThreadSafeSyslParser"},
 		{"pkg/grammar/sysl_lexer.go", "NewSyslLexer"}, {"pkg/grammar/sysl_parser.go", "NewSyslParser"}} {
@@ -371,6 +437,14 @@ func concShape(repo string) (string, error) {
 			continue
 		}
 		simArgs = append(simArgs, fmt.Sprintf("(%s, %s)", coqStr(c.fn), csStrs(csSimArgs(fset, fd))))
+		if strings.HasPrefix(c.fn, "NewThreadSafe") {
+			perInstance = append(perInstance, fmt.Sprintf("(%s, %s)", coqStr(c.fn), coqStr(csPerInstance(fset, fd))))
+			var sh []string
+			for _, st := range fd.Body.List {
+				sh = append(sh, coqStr(csSrc(fset, st)))
+			}
+			ctorShapes = append(ctorShapes, fmt.Sprintf("(%s, [%s])", coqStr(c.fn), strings.Join(sh, ";\n     ")))
+		}
 	}
 
 	// ---- the state map
@@ -576,6 +650,8 @@ func concShape(repo string) (string, error) {
 	fmt.Fprintf(&b, "Definition parse_lexer_ctor : string := %s.\n", coqStr(parseLexCtor))
 	fmt.Fprintf(&b, "Definition parse_parser_ctor : string := %s.\n", coqStr(parseParCtor))
 	fmt.Fprintf(&b, "Definition sim_args : list (string * list string) := %s.\n", csList(simArgs))
+	fmt.Fprintf(&b, "Definition per_instance_atn : list (string * string) := %s.\n", csList(perInstance))
+	fmt.Fprintf(&b, "Definition threadsafe_shapes : list (string * list string) := %s.\n", csList(ctorShapes))
 	fmt.Fprintf(&b, "Definition state_map_type : string := %s.\n", coqStr(mapType))
 	fmt.Fprintf(&b, "Definition state_key : string := %s.\n", coqStr(keyExpr))
 	fmt.Fprintf(&b, "Definition state_map_ops : list (string * list string) := %s.\n", csList(mapOps))
